@@ -236,8 +236,12 @@ pub fn run(input: &Value) -> Option<Value> {
         context.commands.set(Box::new(T { trace: tr.clone(), name: "on_error".to_string(), aliases: if on_error == 3 { vec!["with_value".to_string()] } else { vec![] } })).ok()?;
     }
     let halt = Arc::new(AtomicBool::new(false));
-    let env = Env::new(None, None, Some(halt));
+    let env = Env::new(None, None, Some(halt.clone()));
     let res = runner::run_script(&script, context, Some(env));
+    // the flag belongs to the embedder (it may be shared with other runs): the run only reads it
+    if halt.load(Ordering::SeqCst) != halted {
+        return Some(json!({"script": script, "what": "the run changed the embedder's halt flag", "model": halted, "real": halt.load(Ordering::SeqCst)}));
+    }
     let real_trace = tr.lock().unwrap().clone();
     let (real_vars, real_outcome): (Option<BTreeMap<String, String>>, Result<(), Option<usize>>) = match res {
         Ok(ctx) => (Some(ctx.variables.iter().map(|(k, v)| (k.clone(), v.clone())).collect()), Ok(())),
